@@ -70,9 +70,22 @@ ContextsOf(it) == IF it.k = "o" THEN {<<>>, <<Pn(1), Ts(MaxInt - 2)>>} ELSE Tick
 SweepStreams ==
   UNION {{ctx \o NewFor(it) \o <<it, O("join", 0, 0, 0), Fin>> : ctx \in ContextsOf(it)} : it \in SweptItems}
 
+\* ---------------------------------------------------------------- pass-through neutrality
+\* The running sums are per client id and nothing but the player / input records of that id
+\* touches them: every pass-through record kind (every extension message included), with its
+\* integer members naming live, absent and negative client ids, stands between the NEW records
+\* of two players / inputs (at different values) and a later DIFF and OLD of each of them.
+Pn2(c) == P("pn", c, 100 + 4900 * c, 200 + 5800 * c)
+In2(c) == P("in", c, 7 + 30 * c, -9 - 50 * c)
+Id2(c) == P("id", c, 1, -2)
+NeutralRecords ==
+  UNION {{ON(s, c, 2, b) : c \in {0, 1, 2, -1}, b \in IF s = "cc" THEN {0, 1, 2} ELSE {0, 1, 2, -1}} : s \in SubKinds}
+NeutralStreams ==
+  {<<Pn2(0), Pn2(1), In2(0), In2(1), x, Pd(0), Pd(1), Id2(0), Id2(1), Po(0), Po(1), Fin>> : x \in NeutralRecords}
+
 R == r
 Init == \/ items = <<>> /\ r = Read(S) /\ sweep = FALSE
-        \/ Sweep /\ items \in SweepStreams /\ r = Read(S) /\ sweep = TRUE
+        \/ Sweep /\ items \in SweepStreams \cup NeutralStreams /\ r = Read(S) /\ sweep = TRUE
 Next ==
   /\ ~sweep /\ sweep' = FALSE
   /\ Len(items) < MaxLen
